@@ -64,6 +64,8 @@ class Gen:
     def float_val(self, ty, cls):
         if cls in C04_FLOAT_CLASSES:
             return self.c04_float(ty, cls)
+        if cls == "signedzeros":      # only +0 / -0: the operand pairs on which f32::max / f32::min are unspecified
+            return (self.r.below(2) << (31 if ty == "f32" else 63))
         if cls == "specialnan":       # the special values plus a quiet NaN (one draw in five)
             if self.r.below(5) == 0:
                 return 0x7fc00000 if ty == "f32" else 0x7ff8000000000000
